@@ -74,10 +74,14 @@ func ParsePortionSpecific(input string) (*Portion, error) {
 		if len(fractionMatch) != 0 {
 			numerator := fractionMatch[1]
 			denominator := fractionMatch[2]
-			res, ok = new(big.Rat).SetString(numerator + "/" + denominator)
-			if !ok {
+			// both parts are decimal, like every number of the language (big.Rat.SetString
+			// would read a leading zero as an octal prefix: 1/010 is one tenth, not one eighth)
+			num, okNum := new(big.Int).SetString(numerator, 10)
+			den, okDen := new(big.Int).SetString(denominator, 10)
+			if !okNum || !okDen || den.Sign() == 0 {
 				return nil, errors.New("invalid fractional format")
 			}
+			res = new(big.Rat).SetFrac(num, den)
 		}
 	}
 	if res == nil {
